@@ -25,6 +25,12 @@ CLAIMS = {
     "C04": ("Step contracts for merge, zip, combine_latest (both macro instantiations), with_latest_from, sample, take_until "
             "proved on the real text for arbitrary pre-states (unbounded queues); every interleaving is a sequence of such steps.",
             "§4 C04", "skip_until and buffer(notifier) not yet under contract; aliasing of the two handles is assumed."),
+    "C05": ("Verus: InnerObserver/OutsideObserver of merge_all (both forms) proved against the counter/queue contract: running "
+            "inners <= limit, FIFO of waiting inners, an inner completion starts the OLDEST waiting one or frees its slot, "
+            "downstream completes exactly when the outer stream is done and nothing runs or waits, first error closes the slot.",
+            "§4 C05", "The 3-line body of the deferred-subscription closure is not verified (rule R11); 'without panicking or "
+            "blocking' (dynamic borrow/lock re-entrancy) is outside the stand-in (one such defect was found by reading and fixed); "
+            "flatten/flat_map/concat_* are thin compositions over merge_all (builders not yet under contract)."),
     "C06": ("Verus, unbounded in the number of subscribers: Subject/SubjectThreads next/error/complete/load/actual_subscribe/"
             "unsubscribe/is_closed/is_empty/len/retain proved on the real macro text (iterator adapters desugared by rule R9, "
             "SmallVec assumed to be a Vec) against 'exactly once, in list order, to everybody registered before the emission; "
@@ -68,6 +74,9 @@ CLAIMS = {
 }
 
 NOT_APPLICABLE = {
+    "C20": "group_by's observer is HashMap::entry().or_insert_with(closure borrowing a field) + drain() loops over per-group "
+           "Subjects: outside Verus (closure capturing self, entry API, drain iterator), and the bounded Kani stand-in "
+           "(2 items, u8 keys; notes/not-feasible/kani_group_by.rs.txt) did not finish within 300 s of CBMC; no contract within reach",
     "C10": "all-interleavings safety/liveness of Arc<Mutex> code: Kani has no threads and Verus would need its permission-token "
            "cells, i.e. a rewrite of MutArc into a model; no contract within reach (DESIGN.md §5)",
 }
